@@ -150,6 +150,10 @@ func c19Oracle(run *vk.Run, w *SWorld, cfg SCfg, hist []Ev, metas map[*spawned]*
 		case "empty", "expired":
 			if delta < 1 {
 				viol("no-reinitialisation", "subjective head missing/expired but Head() asked nobody (result %v, %v)", c.call.Val, c.call.Err)
+			} else if delta == 1 && last != nil && last.Trusted != nil {
+				// a request carrying a trusted head is served by ordinary (tracked) peers and verified
+				// against that header; (re)initialisation must ask the trusted peers, i.e. carry none
+				viol("reinitialisation-not-from-trusted-peers", "subjective head missing/expired, yet the head request carried trusted head %v (it is then answered by untrusted peers and anchored on an expired header)", last.Trusted)
 			}
 		}
 	}
